@@ -728,7 +728,8 @@ class Fn:
         # symbolic place: base expr + path (no load!)
         base_local = place["local"]
         if not proj:
-            return ("ref", ("local", base_local))
+            # address of a local: keep the local's identity and the value it holds right now
+            return ("ref", ("local", base_local, self.local_expr(base_local, b, i)))
         # find last deref: address = pointer value + path
         last_deref = -1
         for idx, p in enumerate(proj):
